@@ -273,6 +273,11 @@ func runWorker(bin string, env []string, timeout time.Duration) ([]byte, []byte,
 	go func() { done <- cmd.Wait() }()
 	select {
 	case err := <-done:
+		if ee, ok := err.(*exec.ExitError); ok && ee.ExitCode() == 66 && !bytes.Contains(errb.Bytes(), []byte("fatal error:")) && !bytes.Contains(errb.Bytes(), []byte("panic:")) {
+			// 66 is the race detector's exit code for "ran to the end, races were
+			// reported on the way": the reports are in the records already.
+			err = nil
+		}
 		return out.Bytes(), errb.Bytes(), err
 	case <-time.After(timeout):
 		cmd.Process.Kill()
@@ -520,7 +525,15 @@ func check(prop, tier string) int {
 				okReplay = false
 				break
 			}
-			if rr.OK || rr.Viol.Class != r.Viol.Class || rr.Digest != r.Digest {
+			// The race detector reports each pair of stacks once per process:
+			// which of several races of one execution it names first depends on
+			// what earlier runs of the same worker had already reported. A race
+			// finding is therefore confirmed by any race report under the same tape.
+			// For the same reason a fresh process may report the race where the
+			// worker, having reported it for an earlier seed, saw only its
+			// consequence (a panic, a wrong answer): that confirms the failure too.
+			bothRaces := !rr.OK && strings.HasPrefix(rr.Viol.Class, "data-race:") && spec.Race
+			if !bothRaces && (rr.OK || rr.Viol.Class != r.Viol.Class || rr.Digest != r.Digest) {
 				// (a stall is confirmed by stalling again in the same function: class and the "stall" digest)
 				fmt.Fprintf(os.Stderr, "replay %d of %s diverged: ok=%v class=%v digest=%s want class=%s digest=%s\n", k, path, rr.OK, rr.Viol, rr.Digest, r.Viol.Class, r.Digest)
 				okReplay = false
